@@ -19,6 +19,17 @@ for d in sorted(glob.glob(os.path.join(ROOT, "seeded", "*"))):
         earlier.setdefault(m.get("property", os.path.basename(d).split("-")[0]), []).append(f"- {nm}: {what}")
 
 NATURES = {
+    "7": "a change SPLIT OVER TWO SITES that each look fine alone (a helper whose contract shifts slightly and a caller that relied on the old "
+         "contract; a constant or threshold changed in one module and a comparison against it in another; a `Default` that no longer matches `new()`; "
+         "a `From` / `Into` / `TryFrom` pair that no longer round-trips; a trait default method overridden for one of several sibling types; a private "
+         "field whose meaning changes (e.g. stores n-1 instead of n) with all but one reader adapted); sequences of THREE OR MORE calls where the middle "
+         "one is a query, a clone, a merge with an empty or with itself, or a failed call (what state remains after an element is rejected in the "
+         "middle of a bulk operation, and what the NEXT call returns); input iterators that are consumed lazily, twice, or whose `size_hint` lies, "
+         "by-reference vs by-value iteration, slices vs arrays vs Vec vs other containers; feature-gated code paths (`std` vs `libm`, `serde`, "
+         "`approx`) and Cargo.toml feature wiring; formatting details (flags, precision, sign) where the property speaks of rendering; behaviour that "
+         "depends on the NUMBER of earlier calls (first vs second vs hundredth), on the parity of a count, or on which of two equal-looking code "
+         "paths the compiler's method resolution picks (inherent vs trait, `&T` vs `T` impls, `Add<&Self>` vs `Add<Self>`).  The trigger should still be narrow, "
+         "and the change should read like something a maintainer could plausibly commit.",
     "6": "use what is particular to Rust and to floating point: `as` casts that truncate, saturate or wrap (usize <-> f64 <-> u32/i32), `min` / `max` / "
          "`clamp` in the presence of NaN or signed zeros, `f32::EPSILON` vs `f64::EPSILON` or a constant of the wrong float type inside generic code, "
          "`T::from(x).unwrap()` vs lossy conversion, `powi` / `sqrt` / `ln_1p` / `mul_add` substitutions that are not bit-identical, integer division "
